@@ -4,12 +4,26 @@ One request per input line, one reply line per request.  Built as the native
 executable `dassh_model` (everything it imports is Mathlib-free).
 -/
 import Dassh.Model.AxialMesh
+import Dassh.Model.Mesh
 
 open Dassh.Model
 
 def natList (ws : List String) : Option (List Nat) := ws.mapM String.toNat?
 
 def showNats (xs : List Nat) : String := " ".intercalate (xs.map toString)
+
+/-- doubles cross the protocol as their 64-bit patterns (decimal Nat) -/
+def floatList (ws : List String) : Option (List Float) :=
+  ws.mapM fun w => w.toNat?.map fun n => Float.ofBits n.toUInt64
+
+def showFloats (xs : List Float) : String := " ".intercalate (xs.map fun x => toString x.toBits.toNat)
+
+def showMatrix (m : List (List Float)) : String :=
+  toString m.length ++ " " ++ toString (m.head?.map List.length |>.getD 0) ++ " "
+    ++ showFloats m.flatten
+
+def splitBar (ws : List String) : List String × List String :=
+  (ws.takeWhile (· ≠ "|"), (ws.dropWhile (· ≠ "|")).drop 1)
 
 def handle (line : String) : String :=
   match (line.trimAscii.toString.splitOn " ").filter (· ≠ "") with
@@ -32,6 +46,16 @@ def handle (line : String) : String :=
         | some uu => "ok " ++ toString (AxialMesh.reqDz mm (some uu))
         | none => "bad-op"
     | none => "bad-op"
+  | "f2c" :: rest =>
+    let (a, b) := splitBar rest
+    match floatList a, floatList b with
+    | some xr, some xc => "ok " ++ showMatrix (Mesh.f2c xr xc)
+    | _, _ => "bad-op"
+  | "c2f" :: rest =>
+    let (a, b) := splitBar rest
+    match floatList a, floatList b with
+    | some xr, some xc => "ok " ++ showMatrix (Mesh.c2f xr xc)
+    | _, _ => "bad-op"
   | _ => "bad-op"
 
 partial def loop (h : IO.FS.Stream) : IO Unit := do
